@@ -146,7 +146,12 @@ class Prop(SeqProp):
                         S = ss.SpanSet([v[0] for v in vals], [v[1] for v in vals], force_no_dup_check=True,
                                        eq_relation=relcls[rel]())
                     elif form == 0:
-                        S = ss.SpanSet([v[0] for v in vals], [v[1] for v in vals], eq_relation=relcls[rel]())
+                        starts, ends = [v[0] for v in vals], [v[1] for v in vals]
+                        S = ss.SpanSet(starts, ends, eq_relation=relcls[rel]())
+                        # the caller goes on using its lists: the set built with the duplicate check keeps its own spans
+                        starts.append(10 ** 6); ends.append(10 ** 6 + 1)
+                        if starts:
+                            starts[0] = -(10 ** 6); ends[0] = 10 ** 6
                     elif form == 1:
                         S = ss.SpanSet(iter(vals), eq_relation=relcls[rel]())
                     else:
